@@ -212,6 +212,7 @@ vproof!(c05_mpi_bits16385, 8, { mpi_case::<16385, 4>() });
 
 /// Mpi::from_slice strips leading zeros and serialises with the exact bit length
 vproof!(c05_mpi_from_slice_3, 8, {
+    // (Vec -> Bytes conversion inside from_slice: heavier than the parser path)
     let v: [u8; 3] = kani::any();
     let m = Mpi::from_slice(&v[..]);
     let z = if v[0] != 0 { 0 } else if v[1] != 0 { 1 } else if v[2] != 0 { 2 } else { 3 };
